@@ -127,6 +127,14 @@ func (m *memFaults) refused() [][32]byte {
 	return r
 }
 
+// sinkWriter is a plain io.Writer (no ReadFrom: the copy has to pull from the reader itself).
+type sinkWriter struct{ b []byte }
+
+func (w *sinkWriter) Write(p []byte) (int, error) {
+	w.b = append(w.b, p...)
+	return len(p), nil
+}
+
 type rsStats struct {
 	nontrivial bool
 	trace      []string
@@ -240,6 +248,131 @@ func checkReadSeeker(fl *failer, rs io.ReadSeeker, l *layout, ops []Op, fs fault
 					fl.class("seek:beyond-accepted")
 				}
 				pos = target
+			}
+		case "copy":
+			// drain the reader from the current position the way `cat` does: io.Copy (which hands over to
+			// WriteTo when the reader has one), the same through plain Read calls, io.CopyBuffer with a
+			// small buffer, io.CopyN, or WriteTo called directly
+			avail := max(L-pos, 0)
+			wantLen := avail
+			if op.Via == "copyn" {
+				wantLen = min(avail, int64(max(op.Len, 0)))
+			}
+			limit := l.readable(pos, wantLen)
+			reachesBad := limit < wantLen
+			touchRefused := false
+			l.entries(pos, wantLen, func(c int) {
+				if refused[l.ids[c]] {
+					touchRefused = true
+				}
+			})
+			_, hasWT := rs.(io.WriterTo)
+			var sink sinkWriter
+			var n int64
+			var err error
+			before := fs.delivered()
+			fl.inBadRead = reachesBad
+			switch op.Via {
+			case "read": // io.Copy that cannot see WriteTo
+				n, err = io.Copy(&sink, struct{ io.Reader }{rs})
+			case "buffer":
+				// (at most a few thousand Read calls: the buffer grows with what is left)
+				n, err = io.CopyBuffer(&sink, struct{ io.Reader }{rs}, make([]byte, min(max(op.Len, 1, int(wantLen/2048)), 1<<16)))
+			case "copyn":
+				n, err = io.CopyN(&sink, rs, int64(max(op.Len, 0)))
+			case "writerto":
+				if wt, ok := rs.(io.WriterTo); ok {
+					n, err = wt.WriteTo(&sink)
+				} else {
+					n, err = io.Copy(&sink, rs)
+				}
+			default:
+				n, err = io.Copy(&sink, rs)
+			}
+			fl.inBadRead = false
+			faulted := fs.delivered() > before
+			handedDamaged := fs.refused()
+			for _, id := range handedDamaged {
+				refused[id] = true
+			}
+			got := int64(len(sink.b))
+			note("%d copy(%s,%d) at %d -> %d,%v (%d bytes written)", i, op.Via, op.Len, pos, n, err, got)
+			fl.class("op:copy")
+			if hasWT && (op.Via == "" || op.Via == "copy" || op.Via == "writerto") {
+				fl.class("op:copy:via-writerto")
+			}
+			served := func(plain string) string {
+				switch {
+				case len(handedDamaged) > 0:
+					return "C09:readseeker:damaged-chunk-served"
+				case touchRefused:
+					return "C09:readseeker:refused-chunk-served"
+				}
+				return plain
+			}
+			if n != got {
+				fl.fail("C09:readseeker:copy-count", "op %d: copy(%s) at %d returned n=%d but wrote %d bytes", i, op.Via, pos, n, got)
+			}
+			dataOK := true
+			eofShort := op.Via == "copyn" && err == io.EOF && int64(op.Len) > avail // CopyN asked for more than there is
+			if reachesBad && (got > limit || err == nil || eofShort) {
+				dataOK = false
+				fl.fail("C09:readseeker:mis-sized-entry-accepted", "op %d: copy(%s) at %d reaches index entry %d whose size differs from the chunk stored under its ID after %d bytes, but delivered %d bytes, %v",
+					i, op.Via, pos, l.chunkAt(pos+limit), limit, got, err)
+			} else if got > wantLen {
+				dataOK = false
+				fl.fail(served("C09:readseeker:read-past-end"), "op %d: copy(%s,%d) at %d delivered %d bytes, want %d (length %d)", i, op.Via, op.Len, pos, got, wantLen, L)
+			}
+			if cmp := min(got, limit, wantLen); cmp > 0 && !bytes.Equal(sink.b[:cmp], l.blob[pos:pos+cmp]) {
+				dataOK = false
+				d := int64(0)
+				for d < cmp && sink.b[d] == l.blob[pos+d] {
+					d++
+				}
+				fl.fail(served("C09:readseeker:wrong-bytes"), "op %d: copy(%s) at %d delivered %d bytes that differ from the blob at offset %d (chunk %d): got %#x want %#x",
+					i, op.Via, pos, got, pos+d, l.chunkAt(pos+d), sink.b[d], l.blob[pos+d])
+			}
+			if reachesBad && !dataOK {
+				return st
+			}
+			switch {
+			case err == nil || eofShort:
+				if got < wantLen { // the copy claims to be complete
+					if faulted {
+						fl.fail("C09:readseeker:copy-store-error-swallowed", "op %d: copy(%s,%d) at %d (length %d): the store failed during the call but it ended with %d of %d bytes and error %v",
+							i, op.Via, op.Len, pos, L, got, wantLen, err)
+					} else {
+						fl.fail("C09:readseeker:copy-short", "op %d: copy(%s,%d) at %d (length %d) ended with %d of %d bytes and error %v", i, op.Via, op.Len, pos, L, got, wantLen, err)
+					}
+				}
+				if err == nil && op.Via == "copyn" && int64(op.Len) > avail {
+					fl.fail("C09:readseeker:copy-short", "op %d: CopyN(%d) at %d with only %d bytes left returned nil", i, op.Len, pos, avail)
+				}
+			default:
+				if !faulted && !reachesBad {
+					fl.fail("C09:readseeker:spurious-error", "op %d: copy(%s,%d) at %d (length %d) failed without a store fault after %d bytes: %v", i, op.Via, op.Len, pos, L, got, err)
+				}
+			}
+			if faulted {
+				fl.class("fault:delivered")
+				fl.class("op:copy:fault-delivered")
+				if got > 0 {
+					fl.class("op:copy:fault-after-prefix")
+				}
+				afterFault = true
+			} else if err == nil && dataOK && got == wantLen {
+				fl.class("op:copy:complete")
+				if got > 0 && l.chunkAt(pos+got-1) > l.chunkAt(pos) {
+					fl.class("op:copy:spans-chunks")
+				}
+			}
+			if len(handedDamaged) > 0 {
+				fl.class("damage:delivered")
+			}
+			pos += got
+			// the cursor must be where the delivered bytes end (the following reads check the data there)
+			if ret, serr := rs.Seek(0, io.SeekCurrent); serr != nil || ret != pos {
+				fl.fail("C09:readseeker:copy-position", "op %d: after copy(%s) that delivered %d bytes Seek(0, io.SeekCurrent) returned %d, %v; want %d", i, op.Via, got, ret, serr, pos)
 			}
 		case "read":
 			n := op.Len
@@ -1027,11 +1160,31 @@ func runCat(fl *failer, c Case, l *layout, idx desync.Index, bin string) {
 		default:
 			want = l.blob[off:]
 		}
+		mode := "whole"
+		switch {
+		case op.Off != 0 && op.Len > 0:
+			mode = "offset+length"
+		case op.Off != 0:
+			mode = "offset-only"
+		case op.Len > 0:
+			mode = "length-only"
+		}
+		fl.class("cat:" + mode)
 		needDropped := false
 		if dropped != "" && len(want) > 0 {
 			first, last := l.chunkAt(off), l.chunkAt(off+int64(len(want))-1)
 			for k := first; k <= last; k++ {
-				if l.ids[k] == l.ids[op.Drop] {
+				if l.ids[k] == l.ids[op.Drop] && !l.null[k] { // (the null chunk is never fetched)
+					if !needDropped { // where the first request for the missing chunk falls in the stream
+						switch {
+						case k == first:
+							fl.class("cat:" + mode + ":fault-first")
+						case k == last:
+							fl.class("cat:" + mode + ":fault-last")
+						default:
+							fl.class("cat:" + mode + ":fault-midway")
+						}
+					}
 					needDropped = true
 				}
 			}
@@ -1172,7 +1325,7 @@ func run(c Case) (o hx.Outcome) {
 	fuseNontrivial := runFuse(fl, c, &l, idx)
 
 	// --- CLI
-	if bin := os.Getenv("VERIF_DESYNC_BIN"); bin != "" && hx.Thorough() && len(c.Cat) > 0 {
+	if bin := os.Getenv("VERIF_DESYNC_BIN"); bin != "" && len(c.Cat) > 0 { // generated in the thorough tier only; the directed set of TestEnum runs in both
 		runCat(fl, c, &l, idx, bin)
 	}
 
